@@ -325,6 +325,9 @@ func rulesC03(e *Engine, r *Report) {
 		}
 		r.Min("R03.13", "constant defaults of duration options in package main", n, 4)
 	}
+	// ---------------------------------------------------------------- R03.14
+	r.Rule("R03.14", "no pool of zero workers: every counted goroutine pool of the sender (`for i := 0; i < n; i++ { go … }` - senders, retriers, hash workers) is sized by a constant >= 1 or by a client.Conf field that package main fills, after setDefaults succeeded, from an option which setDefaults leaves positive or refuses on every path that returns no error (with `threads` omitted the pools were empty and the channels unbuffered: the first scan blocked for ever handing its files to hash workers that did not exist)")
+	e.checkPoolSizesPositive(r, "R03.14")
 }
 
 // checkFailedCompanionDiscarded: the record of ranges of an attempt that
